@@ -627,6 +627,10 @@ func (sc *Scope) identIn(p *ssa.Package, name string) (tv, bool) {
 			return tv{}, false
 		}
 		a := vc.globalAddr(g).(adv)
+		if a.base == "G:LTrue" || a.base == "G:LFalse" {
+			// in specs LTrue/LFalse denote the LValue
+			return tv{sv{map[string]string{"G:LTrue": "(LBoolV true)", "G:LFalse": "(LBoolV false)"}[a.base]}, sc.vc.eng.typeByText("LValue")}, true
+		}
 		if s, ok := vc.knownGlobal(a.base); ok {
 			return tv{s, a.typ}, true
 		}
@@ -873,6 +877,38 @@ func (sc *Scope) callExpr(e *Expr) (tv, error) {
 			parts = append(parts, fmt.Sprintf("(= (select %s %s) (select %s %s))", vc.heapGet(sc.cur, k, ki.sort), r.t, vc.heapGet(sc.old, k, ki.sort), r.t))
 		}
 		return tv{sv{and(parts...)}, tBool}, nil
+	}
+	if u, ok := eng.db.Uninterps[e.Name]; ok {
+		if len(args) != len(u.Params) {
+			return errf("%s takes %d arguments", e.Name, len(u.Params))
+		}
+		rt := eng.typeByText(u.Ret)
+		if rt == nil || eng.sortOf(rt) == "" {
+			return errf("uninterp %s: bad result type", e.Name)
+		}
+		var sorts, ts []string
+		for i, p := range u.Params {
+			pt := eng.typeByText(p.Type)
+			if pt == nil || eng.sortOf(pt) == "" {
+				return errf("uninterp %s: bad parameter type %s", e.Name, p.Type)
+			}
+			sorts = append(sorts, eng.sortOf(pt))
+			a := args[i]
+			if eng.sortOf(pt) == "F64" && isUntyped(a.typ) {
+				_, a = sc.unify(tv{sv{"x"}, pt}, a)
+			}
+			s, ok := a.sym.(sv)
+			if !ok {
+				return errf("uninterp %s: composite argument", e.Name)
+			}
+			ts = append(ts, s.t)
+		}
+		vc.needFun("u_"+e.Name, "("+strings.Join(sorts, " ")+") "+eng.sortOf(rt))
+		vc.useAxioms()
+		if len(ts) == 0 {
+			return tv{sv{"u_" + e.Name}, rt}, nil
+		}
+		return tv{sv{fmt.Sprintf("(u_%s %s)", e.Name, strings.Join(ts, " "))}, rt}, nil
 	}
 	if d, ok := eng.db.Defines[e.Name]; ok {
 		return sc.expandDefine(d, args, e)
